@@ -298,10 +298,17 @@ def report(ctx: click.Context, tjp_file: Optional[str], output_csv: bool, output
                 if verbose:
                     logger.debug("Reading .tjp content from stdin")
 
+                # The BYTES are taken as they come (report_id is their SHA-256): the text
+                # layer of sys.stdin may be set to any codec and translates line ends.
                 # (sys.stdin is None when the descriptor is closed: no input then)
-                stdin_content = sys.stdin.read() if sys.stdin is not None else ""
+                if sys.stdin is None:
+                    stdin_bytes = b""
+                elif hasattr(sys.stdin, "buffer"):
+                    stdin_bytes = sys.stdin.buffer.read()
+                else:
+                    stdin_bytes = sys.stdin.read().encode("utf-8")
 
-                if not stdin_content.strip():
+                if not stdin_bytes.decode("utf-8", "ignore").strip():
                     raise FileNotFoundError("No input provided on stdin")
 
                 # Create temporary file from stdin content (safe for concurrent execution)
@@ -309,8 +316,8 @@ def report(ctx: click.Context, tjp_file: Optional[str], output_csv: bool, output
                 stdin_temp_file = Path(temp_path)
 
                 # Write content and close file descriptor
-                with os.fdopen(temp_fd, "w") as f:
-                    f.write(stdin_content)
+                with os.fdopen(temp_fd, "wb") as f:
+                    f.write(stdin_bytes)
 
                 tjp_path = stdin_temp_file
 
